@@ -166,7 +166,7 @@ def soundness(E, k, w, daggers, semantic):
 
 def harnesses(tier):
     q = tier == "quick"
-    T = 600 if q else 2400
+    T = 600 if q else 900
     hs = []
     k, w = (4, 3) if q else (5, 4)
     hs.append(H("soundness", soundness,
